@@ -155,6 +155,101 @@ Section Codec.
   Proof. reflexivity. Qed.
 End Codec.
 
+(* ---- WHEN write and create_dir succeed (review r4, C12-2) and what create_dir leaves unchanged (C12-7).
+   Proofs/LayeredFSOk.v; derived from the definitions alone, no well-formedness needed.  Every other positive theorem of this
+   file is conditional on "fs_write .. = (S', FOk tt)"; these say when that happens. ---- *)
+From Mila Require Import Proofs.LayeredFSOk Proofs.LayeredFSOkReal.
+
+(* the addressed location: the path string (loc = false) or its localisation (loc = true), parsed into plain components *)
+Theorem C12_addr_spec : forall S p loc s a,
+  fs_addr S p loc = FOk (s, a) <->
+  (if loc then localize (c_loc (conf S)) (lng S) p = LOk s else s = p) /\ parse_path s = Some a.
+Proof. exact fs_addr_iff. Qed.
+
+Section WhenOk.
+  Variable compress decompress : cfmt -> bytes -> outcome bytes.
+
+  (* write succeeds IFF the path localizes (when asked to) to a modelled path WITHOUT trailing '/', the codec accepts the
+     payload (it is only consulted for names with the game's compressed suffix), there is a layer, and in the TOP layer no
+     proper ancestor of the target is a file and the target itself is not a directory (so it is not the layer root "").
+     Lower layers play no role: a file in the way there does not block, a directory there does not help. *)
+  Theorem C12_write_ok_iff : forall S p b loc,
+    snd (fs_write compress S p b loc) = FOk tt <->
+    exists s pp c, fs_addr S p loc = FOk (s, (pp, false)) /\ encode_by_name compress S p b = FOk c /\ layers S <> [] /\
+      let top := last (layers S) [] in
+      (forall q, In q (proper_prefixes pp) -> is_file_at top q = false) /\ l_get top pp <> Some Dir.
+  Proof. exact (write_ok_iff compress). Qed.
+
+  (* the return value in every case: localisation / path error first, then the codec's error, then NoWriteableLayers
+     (unreachable after fs_new), then Ok or WriteError by the executable criterion [can_write] on the top layer *)
+  Theorem C12_write_result : forall S p b loc,
+    snd (fs_write compress S p b loc) =
+      fbind (fs_addr S p loc) (fun sa =>
+      fbind (encode_by_name compress S p b) (fun _ =>
+      match layers S with
+      | [] => FErr ENoWriteableLayers
+      | _ => if can_write (last (layers S) []) (snd sa) then FOk tt else FErr EWrite
+      end)).
+  Proof. exact (write_result compress). Qed.
+  Theorem C12_can_write_spec : forall L pp tr, can_write L (pp, tr) = true <->
+    tr = false /\ (forall q, In q (proper_prefixes pp) -> is_file_at L q = false) /\ l_get L pp <> Some Dir.
+  Proof. exact can_write_spec. Qed.
+
+  (* create_dir succeeds IFF the path localizes to a modelled path (a trailing '/' and the root "" are fine), there is a
+     layer, and in the TOP layer neither the target nor any ancestor is a file; otherwise IOError (or the path error) *)
+  Theorem C12_create_dir_ok_iff : forall S p loc,
+    snd (fs_create_dir S p loc) = FOk tt <->
+    exists s pp tr, fs_addr S p loc = FOk (s, (pp, tr)) /\ layers S <> [] /\
+      forall q, In q (prefixes pp) -> is_file_at (last (layers S) []) q = false.
+  Proof. exact create_dir_ok_iff. Qed.
+  Theorem C12_create_dir_result : forall S p loc,
+    snd (fs_create_dir S p loc) =
+      fbind (fs_addr S p loc) (fun sa =>
+      match layers S with
+      | [] => FPanic PIndex
+      | _ => if can_create_dir (last (layers S) []) (snd sa) then FOk tt else FErr EIo
+      end).
+  Proof. exact create_dir_result. Qed.
+
+  (* frame of create_dir (any path, localized or not, whatever it returns): every read and every file_exists query answers
+     as before; what existed / was a directory still is.  (exists, directory_exists and listings may GAIN the created
+     directories, resolve may move up to the top layer.)  Together with C12_create_dir_top_only this covers create_dir
+     inside the histories of the property's quantifier. *)
+  Theorem C12_create_dir_frame : forall S q l S' r, fs_create_dir S q l = (S', r) ->
+    (forall p loc, fs_read decompress S' p loc = fs_read decompress S p loc) /\
+    (forall p loc, fs_file_exists S' p loc = fs_file_exists S p loc) /\
+    (forall p loc, fs_exists S p loc = FOk true -> fs_exists S' p loc = FOk true) /\
+    (forall p loc, fs_directory_exists S p loc = FOk true -> fs_directory_exists S' p loc = FOk true).
+  Proof. exact (create_dir_frame decompress). Qed.
+End WhenOk.
+
+(* with the models of the real codecs, after fs_new, below 16 MiB: success depends on the path and the top layer only *)
+Theorem C12_write_ok_iff_real : forall mc ls l g S p b loc, fs_new ls l g = FOk S -> lenN b < 2 ^ 24 ->
+  (snd (fs_write (real_compress mc) S p b loc) = FOk tt <->
+   exists s pp, fs_addr S p loc = FOk (s, (pp, false)) /\
+     let top := last (layers S) [] in
+     (forall q, In q (proper_prefixes pp) -> is_file_at top q = false) /\ l_get top pp <> Some Dir).
+Proof. exact real_write_ok_iff. Qed.
+
+(* non-vacuity, both directions.  Lower layer: FILE "f", directory "d"; top layer: directory "d", FILE "d/g".
+   - "f/x": the file "f" in the LOWER layer does not block the write (the top layer gets a directory "f");
+   - "d/g/x": through the top layer's file: WriteError, nothing changes;  "d": onto a directory: WriteError;  "": the root: WriteError;
+   - "d/n/" (trailing '/'): WriteError;  create_dir "d/g/k": IOError;  create_dir "d/": Ok *)
+Definition ok_lower : layer := [([[102]], File [1]); ([[100]], Dir)].
+Definition ok_upper : layer := [([[100]], Dir); ([[100]; [103]], File [2])].
+Definition ok_fs : fsys := mkFs [ok_lower; ok_upper] (mkConfig LZ13 GFE13 LE Unicode) EnglishNA.
+Definition ok_id (f : cfmt) (b : bytes) : outcome bytes := Ok b.
+Example C12_example_when_ok :
+  snd (fs_write ok_id ok_fs [102; 47; 120] [7] false) = FOk tt /\
+  fs_read ok_id (fst (fs_write ok_id ok_fs [102; 47; 120] [7] false)) [102] false = FOk [1] /\
+  fs_write ok_id ok_fs [100; 47; 103; 47; 120] [7] false = (ok_fs, FErr EWrite) /\
+  fs_write ok_id ok_fs [100] [7] false = (ok_fs, FErr EWrite) /\
+  fs_write ok_id ok_fs [] [7] false = (ok_fs, FErr EWrite) /\
+  snd (fs_write ok_id ok_fs [100; 47; 110; 47] [7] false) = FErr EWrite /\
+  fs_create_dir ok_fs [100; 47; 103; 47; 107] false = (ok_fs, FErr EIo) /\
+  snd (fs_create_dir ok_fs [100; 47] false) = FOk tt /\ snd (fs_create_dir ok_fs [] false) = FOk tt.
+Proof. vm_compute. repeat split. Qed.
+
 (* exists / file_exists / directory_exists / resolve: the same top-down search over the same addressed location *)
 Theorem C12_queries_same_search : forall S p loc s a,
   fs_addr S p loc = FOk (s, a) ->
